@@ -731,7 +731,7 @@ func (lb *LoadBalancer) findHealthyBackend(r *http.Request) *Backend {
 func (lb *LoadBalancer) proxyRequest(backend *Backend, w http.ResponseWriter, r *http.Request, startTime time.Time) error {
 	// Track the active connection
 	backend.IncrementConnections()
-	lb.metricsCollector.UpdateBackendConnections(backend.Name, backend.GetActiveConnections())
+	lb.metricsCollector.SyncBackendConnections(backend.Name, backend.GetActiveConnections)
 
 	// Create a custom response writer to capture the status code
 	rw := &responseWriter{
@@ -747,7 +747,7 @@ func (lb *LoadBalancer) proxyRequest(backend *Backend, w http.ResponseWriter, r 
 	defer func() {
 		// Decrement the connection count when done
 		backend.DecrementConnections()
-		lb.metricsCollector.UpdateBackendConnections(backend.Name, backend.GetActiveConnections())
+		lb.metricsCollector.SyncBackendConnections(backend.Name, backend.GetActiveConnections)
 		if !completed {
 			responseTime := time.Since(startTime)
 			lb.metricsCollector.RecordResponse(false, responseTime)
